@@ -106,6 +106,22 @@ def check(pid, tier, seed, replay=None):
                             for form in (item + tail, b"\xbf\x61k" + item + tail + b"\xff"):
                                 ops.append({"a": "Input", "id": "beyond%d" % k, "hex": form.hex(), "abs": []})
                                 k += 1
+            # the time tag in front of every kind of number it might be given (the encoder writes integers and floats; a foreign or
+            # damaged stream writes anything): extreme and special floats in both widths, integers at the ends of their ranges
+            import struct
+            nums = [struct.pack(">Bf", 0xfa, x) for x in (float("-inf"), float("inf"), float("nan"), -1e19, -1e30, 1e30, -0.0, 1.5)]
+            nums += [struct.pack(">Bd", 0xfb, x) for x in (float("-inf"), float("inf"), float("nan"), -1e19, -1e300, 1e300, -9.3e18, 9.3e18, -0.0)]
+            nums += [bytes([0x1b]) + (2 ** 64 - 1).to_bytes(8, "big"), bytes([0x3b]) + (2 ** 64 - 1).to_bytes(8, "big"), bytes([0x3b]) + (2 ** 63).to_bytes(8, "big"), b"\xf9\xfc\x00", b"\xf9\x7e\x00"]
+            for num in nums:
+                for form in (b"\xc1" + num, b"\xbf\x61t\xc1" + num + b"\xff"):
+                    ops.append({"a": "Input", "id": "timetag%d" % k, "hex": form.hex(), "abs": []})
+                    k += 1
+            # the address tags (260, 261) with content of the right shape up to the last item, which is then of every other kind
+            for last in (b"\xf5", b"\x61a", b"\xf9\x3c\x00", b"\x80", b"\xa0", b"\x20", b"\x18\xff", b"\x1b" + b"\xff" * 8, b"\xf6", b"\x41\x01", b""):
+                for body in (b"\xd9\x01\x05\xa1\x44\x01\x02\x03\x04" + last, b"\xd9\x01\x05\xa1\x50" + bytes(16) + last, b"\xd9\x01\x04" + last, b"\xd9\x01\x05\xa1" + last):
+                    for form in (body, b"\xbf\x61p" + body + b"\xff"):
+                        ops.append({"a": "Input", "id": "addrtag%d" % k, "hex": form.hex(), "abs": []})
+                        k += 1
             # strings full of bytes that are not UTF-8 (every one becomes a six-byte escape): the output stays proportional
             for n in (1024, 4096, 16384):
                 body = (b"a\xff" * (n // 2))[:n]
